@@ -114,11 +114,21 @@ class Restriction(Family):
 
     def check(self, case):
         it = self.items[case]
-        g = it['grader']()
-        for pre in it.get('before', ()):
-            run(it['grader'](), pre)          # earlier submissions (whatever their outcome) must not matter
-        out = run(g, it['input'])
         where = '%s; input %r' % (it['label'], it['input'])
+        try:
+            for other, pre in it.get('before_with', ()):
+                og = other()                  # graders built (and used) earlier in the process must not matter either
+                if pre is not None:
+                    run(og, pre)
+            g = it['grader']()
+            pre_graders = [it['grader']() for pre in it.get('before', ())]
+        except Exception as e:               # every configuration used here is valid by the documentation
+            return Result('construction-raised', True,
+                          viol(self.name + ':valid-configuration-refused-at-construction:' + (it['tag'] or it['kind']),
+                               '%s: building the grader(s) raised %r' % (where, e), 'a grader', repr(e)[:300]))
+        for pg, pre in zip(pre_graders, it.get('before', ())):
+            run(pg, pre)                      # earlier submissions (whatever their outcome) must not matter
+        out = run(g, it['input'])
         if it['kind'] == 'control':
             if out[0] != 'ok':
                 return Result('control-raised', True,
@@ -163,8 +173,11 @@ class Restriction(Family):
                                     it['allowed'], detail))
 
 
-def mk(label, grader, inp, kind, allowed=None, credit=None, tag='', before=()):
-    return dict(label=label, grader=grader, input=inp, kind=kind, allowed=allowed, credit=credit, tag=tag, before=before)
+def mk(label, grader, inp, kind, allowed=None, credit=None, tag='', before=(), before_with=()):
+    """before: earlier submissions to a grader of the same configuration; before_with: (factory, submission or None) pairs --
+    OTHER graders that are built (and, with a submission, called) earlier in the same process"""
+    return dict(label=label, grader=grader, input=inp, kind=kind, allowed=allowed, credit=credit, tag=tag, before=before,
+                before_with=before_with)
 
 
 # balanced, but too deep for the recursive grammar: fails inside the parser with a non-parse error (generic message)
@@ -445,6 +458,564 @@ def build_sum(tier):
     return items
 
 
+# ------------------------------------------------------------------------------ wider alphabets (review round)
+
+def cmp_partial(params, student, utils):
+    """author-written comparer: the right value earns 'partial' (half credit), never full credit"""
+    return 'partial' if utils.within_tolerance(params[0], student) else False
+
+
+def cmp_quarter(params, student, utils):
+    """author-written comparer: the right value earns a quarter, with a message"""
+    return {'grade_decimal': 0.25, 'msg': 'a quarter'} if utils.within_tolerance(params[0], student) else False
+
+
+def _sq(t):
+    return t * t
+
+
+def _renderings(tier, s):
+    return spaced(s)[:3] if tier == 'quick' else spaced(s)[:3] + spaced(s)[3::5]
+
+
+def build_comparer_partial(tier):
+    """the verdict is 'partial' because of the COMPARER (not because the matched answer is worth less than 1)"""
+    from mitxgraders.comparers import LinearComparer
+    items = []
+    ncon = 4 if tier == 'quick' else 9
+    comparers = [('comparer returning "partial"', cmp_partial, 0.5), ('comparer returning {grade_decimal: .25}', cmp_quarter, 0.25)]
+    for cls, clsname, matrix in ((FormulaGrader, 'FormulaGrader', False), (MatrixGrader, 'MatrixGrader', True)):
+        for cname, cmp, credit in comparers:
+            for scale in ((1, 0.5) if (tier != 'quick' or not matrix) else (1,)):
+                A = '2*cos(x)+x'
+                cfgs = [('blacklist=[sin]', dict(blacklist=['sin']), ['sin(x)', 'sin(0)'], 'blacklist'),
+                        ('whitelist=[cos,abs]', dict(whitelist=['cos', 'abs']), ['sqrt(4)', 'exp(0)'], 'whitelist')]
+                for label, kw, Rs, tag in cfgs:
+                    mkg = (lambda cls=cls, kw=kw, cmp=cmp, scale=scale:
+                           cls(answers={'expect': {'comparer': cmp, 'comparer_params': ['2*cos(x)+x']}, 'grade_decimal': scale},
+                               variables=['x'], **kw))
+                    lab = '%s %s, %s, answer credit %r' % (clsname, label, cname, scale)
+                    items.append(mk(lab, mkg, A, 'control', credit=credit * scale))
+                    items.append(mk(lab, mkg, 'x+cos(x)*2', 'control', credit=credit * scale))
+                    for R in Rs:
+                        for cheat in contexts(A, R, matrix=matrix)[:ncon]:
+                            items.append(mk(lab, mkg, cheat, 'cheat', FUNC_ERR, tag=tag + ':comparer-partial'))
+                # required / forbidden
+                mkg = (lambda cls=cls, cmp=cmp, scale=scale:
+                       cls(answers={'expect': {'comparer': cmp, 'comparer_params': ['cos(2*x)']}, 'grade_decimal': scale},
+                           variables=['x'], required_functions=['cos']))
+                lab = '%s required_functions=[cos], %s, answer credit %r' % (clsname, cname, scale)
+                items.append(mk(lab, mkg, '2*cos(x)^2-1', 'control', credit=credit * scale))
+                for cheat in ('1-2*sin(x)^2', 'sin(2*x+pi/2)', '(1-tan(x)^2)/(1+tan(x)^2)'):
+                    items.append(mk(lab, mkg, cheat, 'cheat', FUNC_ERR, tag='required:comparer-partial'))
+                mkg = (lambda cls=cls, cmp=cmp, scale=scale:
+                       cls(answers={'expect': {'comparer': cmp, 'comparer_params': ['2*sin(x)*cos(x)']}, 'grade_decimal': scale},
+                           variables=['x'], forbidden_strings=['2*x', '+x']))
+                lab = '%s forbidden_strings=[2*x,+x], %s, answer credit %r' % (clsname, cname, scale)
+                items.append(mk(lab, mkg, 'cos(x)*sin(x)*2', 'control', credit=credit * scale))
+                for cheat in ('sin(2*x)', 'sin(x+x)', '2*sin(x)*cos(x)+x-x'):
+                    for s in _renderings(tier, cheat):
+                        items.append(mk(lab, mkg, s, 'cheat', FUNC_ERR, tag='forbidden:comparer-partial'))
+        # LinearComparer: a multiple of the answer earns half credit
+        for label, kw, R, tag in (('blacklist=[sin]', dict(blacklist=['sin']), 'sin(x)', 'blacklist'),
+                                  ('whitelist=[cos]', dict(whitelist=['cos']), 'sqrt(4)', 'whitelist'),
+                                  ('forbidden_strings=[3*(]', dict(forbidden_strings=['3*(']), None, 'forbidden'),
+                                  ('required_functions=[cos]', dict(required_functions=['cos']), None, 'required')):
+            mkg = (lambda cls=cls, kw=kw:
+                   cls(answers={'expect': {'comparer': LinearComparer(), 'comparer_params': ['2*cos(x)+x']}}, variables=['x'], **kw))
+            lab = '%s %s, LinearComparer' % (clsname, label)
+            items.append(mk(lab, mkg, '2*cos(x)+x', 'control', credit=1))
+            items.append(mk(lab, mkg, '(2*cos(x)+x)*3', 'control', credit=0.5))
+            if R is not None:
+                for cheat in contexts('3*(2*cos(x)+x)', R, matrix=matrix)[:ncon]:
+                    items.append(mk(lab, mkg, cheat, 'cheat', FUNC_ERR, tag=tag + ':linear-comparer-partial'))
+            elif tag == 'forbidden':
+                for s_ in _renderings(tier, '3*(2*cos(x)+x)'):
+                    items.append(mk(lab, mkg, s_, 'cheat', FUNC_ERR, tag=tag + ':linear-comparer-partial'))
+            else:
+                for cheat in ('3*(2*sin(x+pi/2)+x)', '6*sin(x+pi/2)+3*x', '(2*sin(x+pi/2)+x)/7'):
+                    items.append(mk(lab, mkg, cheat, 'cheat', FUNC_ERR, tag=tag + ':linear-comparer-partial'))
+    # MatrixGrader with entry-wise partial credit: one entry right (using the restricted construct), one entry wrong
+    for epc, credit in (('proportional', 0.5), (0.3, 0.3)):
+        for label, kw, cheats, tag in (
+                ('blacklist=[sin]', dict(blacklist=['sin']), ['[x+0*sin(x),1]', '[1,2*cos(x)+sin(x)-sin(x)]', '[x,1+0*sin(x)]'], 'blacklist'),
+                ('whitelist=[cos]', dict(whitelist=['cos']), ['[x+0*sqrt(4),1]', '[1,2*cos(x)*exp(0)]'], 'whitelist'),
+                ('forbidden_strings=[x+x]', dict(forbidden_strings=['x+x']), ['[x+x-x,1]', '[1,2*cos(x+x-x)]', '[x +x-x,1]'], 'forbidden'),
+                ('required_functions=[cos]', dict(required_functions=['cos']), ['[x,1]', '[x,x^2]'], 'required')):
+            mkg = lambda kw=kw, epc=epc: MatrixGrader(answers='[x,2*cos(x)]', variables=['x'], entry_partial_credit=epc, **kw)
+            lab = 'MatrixGrader %s, entry_partial_credit=%r' % (label, epc)
+            items.append(mk(lab, mkg, '[x,2*cos(x)]', 'control', credit=1))
+            items.append(mk(lab, mkg, '[x,3*cos(x)]' if tag != 'forbidden' else '[x,cos(x)]', 'control', credit=credit))
+            for cheat in cheats:
+                items.append(mk(lab, mkg, cheat, 'cheat', FUNC_ERR, tag=tag + ':entry-partial-credit'))
+    # Numerical
+    for cname, cmp, credit in comparers:
+        mkg = lambda cmp=cmp: NumericalGrader(answers={'expect': {'comparer': cmp, 'comparer_params': ['2*cos(1)+3']}}, blacklist=['sin'])
+        lab = 'NumericalGrader blacklist=[sin], %s' % cname
+        items.append(mk(lab, mkg, '3+2*cos(1)', 'control', credit=credit))
+        for cheat in contexts('2*cos(1)+3', 'sin(1)')[:ncon]:
+            items.append(mk(lab, mkg, cheat, 'cheat', FUNC_ERR, tag='blacklist:comparer-partial'))
+    return items
+
+
+def build_lookalikes(tier):
+    """names that CONTAIN a restricted / required name, required user functions, whole-input and end-of-input forbidden
+    strings, and author answers that themselves break the forbidden / required rules"""
+    items = []
+    for credit in (1, 0.5):
+        for cls, clsname, matrix in ((FormulaGrader, 'FormulaGrader', False), (MatrixGrader, 'MatrixGrader', True)):
+            if matrix and credit != 1 and tier == 'quick':
+                continue
+            # required cos: cosh / arccos are other functions
+            mkg = lambda cls=cls, credit=credit: cls(answers={'expect': 'cos(2*x)', 'grade_decimal': credit}, variables=['x'],
+                                                     required_functions=['cos'])
+            lab = '%s required_functions=[cos] (look-alike functions) credit %r' % (clsname, credit)
+            items.append(mk(lab, mkg, 'cos(2*x)+0*cosh(x)', 'control', credit=credit))
+            for cheat in ('cosh(2*i*x)', 're(cosh(2*i*x))', '1-2*sin(x)^2+0*arccos(0)', '1-2*sin(x)^2+0*cosh(x)', '1/sec(2*x)+0*arccos(0)',
+                          '1-2*sin(x)^2+0*cot(1)', '1-2*sin(x)^2+0*arccosh(2)'):
+                items.append(mk(lab, mkg, cheat, 'cheat', FUNC_ERR, tag='required:look-alike'))
+            # required sin AND cosh given, cos missing ... and the other way round
+            mkg = lambda cls=cls, credit=credit: cls(answers={'expect': 'cosh(x)+cos(x)', 'grade_decimal': credit}, variables=['x'],
+                                                     required_functions=['cosh', 'cos'])
+            lab = '%s required_functions=[cosh,cos] credit %r' % (clsname, credit)
+            items.append(mk(lab, mkg, 'cos(x)+cosh(x)', 'control', credit=credit))
+            for cheat in ('cosh(x)+cosh(i*x)', 'cos(x)+cos(i*x)', 'cosh(x)+sin(x+pi/2)', '(e^x+e^(-x))/2+cos(x)'):
+                items.append(mk(lab, mkg, cheat, 'cheat', FUNC_ERR, tag='required:look-alike'))
+            # blacklist sin: sinh, arcsin stay permitted (controls); whitelist cosh: cos is not permitted
+            mkg = lambda cls=cls, credit=credit: cls(answers={'expect': '2*cos(x)+x', 'grade_decimal': credit}, variables=['x'],
+                                                     blacklist=['sin'])
+            lab = '%s blacklist=[sin] (look-alike functions) credit %r' % (clsname, credit)
+            for ctrl in ('2*cos(x)+x+0*sinh(x)', '2*cos(x)+x+0*arcsin(0)'):
+                items.append(mk(lab, mkg, ctrl, 'control', credit=credit))
+            for cheat in ('2*cos(x)+x+0*sinh(x)+0*sin(x)', '2*cos(x)+x+0*arcsin(sin(0))', '2*cos(x)+x+0*sinh(sin(x))'):
+                items.append(mk(lab, mkg, cheat, 'cheat', FUNC_ERR, tag='blacklist:look-alike'))
+            mkg = lambda cls=cls, credit=credit: cls(answers={'expect': '2*cosh(x)+x', 'grade_decimal': credit}, variables=['x'],
+                                                     whitelist=['cosh', 'arccos'])
+            lab = '%s whitelist=[cosh,arccos] credit %r' % (clsname, credit)
+            items.append(mk(lab, mkg, 'x+cosh(x)*2+0*arccos(0)', 'control', credit=credit))
+            for cheat in ('2*cos(i*x)+x', '2*cosh(x)+x+0*cos(x)', '2*cosh(x)+x+0*arccosh(2)', '2*cosh(x)+x+0*sinh(x)', 'e^x+e^(-x)+x+0*cot(1)'):
+                items.append(mk(lab, mkg, cheat, 'cheat', FUNC_ERR, tag='whitelist:look-alike'))
+            # a required USER function, and whitelist=[None] next to a user function
+            mkg = lambda cls=cls, credit=credit: cls(answers={'expect': 'h(x)+1', 'grade_decimal': credit}, variables=['x'],
+                                                     user_functions={'h': _sq}, required_functions=['h'])
+            lab = '%s required_functions=[h], h a user function, credit %r' % (clsname, credit)
+            items.append(mk(lab, mkg, '1+h(x)', 'control', credit=credit))
+            for cheat in ('x^2+1', 'x*x+1', '1+abs(x)^2', '1+x^2+0*cosh(x)'):
+                items.append(mk(lab, mkg, cheat, 'cheat', FUNC_ERR, tag='required:user-function'))
+            mkg = lambda cls=cls, credit=credit: cls(answers={'expect': 'h(x)+1', 'grade_decimal': credit}, variables=['x'],
+                                                     user_functions={'h': _sq}, whitelist=[None])
+            lab = '%s whitelist=[None] + user function h, credit %r' % (clsname, credit)
+            items.append(mk(lab, mkg, '1+h(x)', 'control', credit=credit))
+            items.append(mk(lab, mkg, '1+x^2+0*h(2)', 'control', credit=credit))
+            for R in ('cos(0)', 'abs(x)', 'sqrt(4)'):
+                for cheat in contexts('h(x)+1', R, matrix=matrix, userfn='h')[:5] + ['h(x)+1+0*h(%s)' % R]:
+                    if 'cos(' in cheat and R != 'cos(0)':
+                        continue
+                    items.append(mk(lab, mkg, cheat, 'cheat', FUNC_ERR, tag='whitelist-none:user-function'))
+            # forbidden string = the whole input / the end of the input / only the last listed one occurs
+            for fs in (['sin(2*x)'], ['*x)'], ['q', 'w', '2 * x )']):
+                mkg = lambda cls=cls, credit=credit, fs=fs: cls(answers={'expect': '2*sin(x)*cos(x)', 'grade_decimal': credit},
+                                                                variables=['x'], forbidden_strings=fs)
+                lab = '%s forbidden_strings=%r credit %r' % (clsname, fs, credit)
+                for ctrl in ('2*sin(x)*cos(x)', 'sin(x)*cos(x)+cos(x)*sin(x)'):
+                    items.append(mk(lab, mkg, ctrl, 'control', credit=credit))
+                for s in _renderings(tier, 'sin(2*x)'):
+                    items.append(mk(lab, mkg, s, 'cheat', FUNC_ERR, tag='forbidden:whole-or-end'))
+            # the author's own answer contains the forbidden string / lacks the required function / uses a non-whitelisted one
+            mkg = lambda cls=cls, credit=credit: cls(answers={'expect': 'sin(2*x)', 'grade_decimal': credit}, variables=['x'],
+                                                     forbidden_strings=['2*x', '( x+x'])
+            lab = '%s author answer sin(2*x) contains the forbidden 2*x, credit %r' % (clsname, credit)
+            items.append(mk(lab, mkg, '2*sin(x)*cos(x)', 'control', credit=credit))
+            for cheat in ('sin(2*x)', 'sin(2 *x)', 'sin(x+x)', 'sin(( x +x))'):
+                if cheat == 'sin(x+x)':
+                    continue
+                items.append(mk(lab, mkg, cheat, 'cheat', FUNC_ERR, tag='forbidden:author-text'))
+            mkg = lambda cls=cls, credit=credit: cls(answers={'expect': '1-2*sin(x)^2', 'grade_decimal': credit}, variables=['x'],
+                                                     required_functions=['cos'])
+            lab = '%s author answer lacks the required cos, credit %r' % (clsname, credit)
+            items.append(mk(lab, mkg, 'cos(2*x)', 'control', credit=credit))
+            items.append(mk(lab, mkg, '1-2*sin(x)^2', 'cheat', FUNC_ERR, tag='required:author-text'))
+            mkg = lambda cls=cls, credit=credit: cls(answers={'expect': 'sqrt(x^2)+cos(0)', 'grade_decimal': credit}, variables=['x'],
+                                                     whitelist=[None])
+            lab = '%s whitelist=[None], author answer uses sqrt and cos, credit %r' % (clsname, credit)
+            items.append(mk(lab, mkg, 'x+1', 'control', credit=credit))
+            items.append(mk(lab, mkg, 'sqrt(x^2)+cos(0)', 'cheat', FUNC_ERR, tag='whitelist-none:author-text'))
+        mkg = lambda credit=credit: NumericalGrader(answers={'expect': 'cos(2)', 'grade_decimal': credit}, required_functions=['cos'],
+                                                    tolerance='0.01%')
+        lab = 'NumericalGrader required_functions=[cos] (look-alike functions) credit %r' % credit
+        items.append(mk(lab, mkg, '2*cos(1)^2-1', 'control', credit=credit))
+        for cheat in ('cosh(2*i)', '1-2*sin(1)^2+0*arccos(0)', '1-2*sin(1)^2'):
+            items.append(mk(lab, mkg, cheat, 'cheat', FUNC_ERR, tag='required:look-alike'))
+    return items
+
+
+def build_names_wider(tier):
+    items = []
+    for credit in ((1,) if tier == 'quick' else (1, 0.5)):     # undefined names are refused before any credit is computed
+        for cls, clsname, matrix in ((FormulaGrader, 'FormulaGrader', False), (MatrixGrader, 'MatrixGrader', True)):
+            A = '2*cos(x)+x'
+            setups = [
+                # ONE default constant removed, the others stay
+                ('user_constants={pi: None}',
+                 lambda cls=cls, credit=credit: cls(answers={'expect': '2*cos(x)+x', 'grade_decimal': credit}, variables=['x'],
+                                                    user_constants={'pi': None}), ['pi'], 'removed-constant', ('0*e', '0*i*j')),
+                ('user_constants={e: None, j: None, c: 2}',
+                 lambda cls=cls, credit=credit: cls(answers={'expect': '2*cos(x)+x', 'grade_decimal': credit}, variables=['x'],
+                                                    user_constants={'e': None, 'j': None, 'c': 2}), ['e', 'j'], 'removed-constant',
+                 ('0*pi', '0*i', '0*c')),
+                # metric suffixes on: everything that is not a suffix stays refused
+                ('metric_suffixes=True',
+                 lambda cls=cls, credit=credit: cls(answers={'expect': '2*cos(x)+x', 'grade_decimal': credit}, variables=['x'],
+                                                    metric_suffixes=True),
+                 ['2q', '2x', '2K', '2pi', '2da', '2E', '2kk', '2e', '3cos', 'k', '2*k', 'k2'], 'not-a-suffix', ('0*2k', '0*3%', '0*2 M')),
+                # function names used as variables, constants and variables used as functions
+                ('plain grader + user function h (name kinds mixed up)',
+                 lambda cls=cls, credit=credit: cls(answers={'expect': '2*cos(x)+x', 'grade_decimal': credit}, variables=['x'],
+                                                    user_functions={'h': _sq}),
+                 ['cos', 'sin', 'h', 'pi(2)', 'e(1)', 'i(0)', 'x(1)', 'H(x)', 'hh(x)', "h'(x)", 'h_1(x)', 'abs'],
+                 'wrong-kind', ('0*h(x)',)),
+                # a declared primed variable: the unprimed and doubly primed names are different names
+                ("variables=[x, x'] with instructor_vars=[x']",
+                 lambda cls=cls, credit=credit: cls(answers={'expect': "2*cos(x)+x+x'-x'", 'grade_decimal': credit}, variables=['x', "x'"],
+                                                    instructor_vars=["x'"]), ["x'", "x''"], 'instructor-var', ()),
+                # more numbered-variable look-alikes (not integers inside the braces, decorated instances)
+                ('numbered_vars=[a] (non-integer indices)',
+                 lambda cls=cls, credit=credit: cls(answers={'expect': '2*cos(x)+x+a_{1}-a_{1}', 'grade_decimal': credit},
+                                                    variables=['x'], numbered_vars=['a']),
+                 ['a_{1x}', 'a_{x1}', 'a_{-x}', 'a_{1}^{-2}', "a_{-1}''", 'a_{a}', 'a_{1}(2)', 'a(1)'], 'numbered-var',
+                 ('0*a_{-1}', '0*a_{10}')),
+                ('numbered_vars=[a, ab]',
+                 lambda cls=cls, credit=credit: cls(answers={'expect': '2*cos(x)+x+ab_{1}-ab_{1}', 'grade_decimal': credit},
+                                                    variables=['x'], numbered_vars=['a', 'ab']),
+                 ['b_{1}', 'aab_{1}', 'aba_{1}', 'ab', "ab_{1}'", 'ab_{1}^{2}', 'a_{1b}'], 'numbered-var', ('0*a_{1}*ab_{2}',)),
+                # instructor variables in debug mode (the scope is restored for the log after every sample)
+                ('instructor_vars=[z], debug=True',
+                 lambda cls=cls, credit=credit: cls(answers={'expect': '2*cos(x)+x+z-z', 'grade_decimal': credit},
+                                                    variables=['x', 'z'], instructor_vars=['z'], debug=True), ['z'], 'instructor-var', ()),
+                ('instructor_vars=[z], z = 0 (complex zero), samples=1',
+                 lambda cls=cls, credit=credit: cls(answers={'expect': '2*cos(x)+x+z', 'grade_decimal': credit}, samples=1,
+                                                    variables=['x'], user_constants={'z': 0j}, instructor_vars=['z']), ['z'], 'instructor-var',
+                 ()),
+                ('instructor_vars=[z, y], both sampled, failable_evals=4',
+                 lambda cls=cls, credit=credit: cls(answers={'expect': '2*cos(x)+x+z*y-y*z', 'grade_decimal': credit}, failable_evals=4,
+                                                    variables=['x', 'y', 'z'], instructor_vars=['z', 'y']), ['z', 'y', 'z*y'],
+                 'instructor-var', ()),
+            ]
+            for label, mkg, Rs, tag, extra_ok in setups:
+                lab = '%s %s credit %r' % (clsname, label, credit)
+                items.append(mk(lab, mkg, A, 'control', credit=credit))
+                for ok in extra_ok:
+                    items.append(mk(lab, mkg, A + '+' + ok, 'control', credit=credit))
+                seen = set()
+                for R in Rs:
+                    if R in seen:
+                        continue
+                    seen.add(R)
+                    cons = contexts(A, R, matrix=matrix)
+                    if tier == 'quick':
+                        cons = cons[:2] + cons[-1:]
+                    for cheat in cons + [R]:
+                        items.append(mk(lab, mkg, cheat, 'cheat', UNDEF_ERR, tag=tag))
+        # MatrixGrader: the identity I as an instructor-only constant
+        mkg = lambda credit=credit: MatrixGrader(answers={'expect': '(2*cos(x)+x)*I', 'grade_decimal': credit}, variables=['x'],
+                                                 identity_dim=2, instructor_vars=['I'], max_array_dim=2)
+        lab = 'MatrixGrader identity_dim=2, instructor_vars=[I] credit %r' % credit
+        items.append(mk(lab, mkg, '[[2*cos(x)+x,0],[0,2*cos(x)+x]]', 'control', credit=credit))
+        for cheat in ('(2*cos(x)+x)*I', '[[2*cos(x)+x,0],[0,2*cos(x)+x]]+0*I', '[[2*cos(x)+x,0],[0,2*cos(x)+x]]*I^0',
+                      '[[2*cos(x)+x,0],[0,2*cos(x)+x]]+I-I', '[[2*cos(x)+x,0],[0,2*cos(x)+x]]+0*det(I)'):
+            items.append(mk(lab, mkg, cheat, 'cheat', UNDEF_ERR, tag='instructor-var'))
+        # Numerical: one constant removed
+        mkg = lambda credit=credit: NumericalGrader(answers={'expect': '2*e', 'grade_decimal': credit}, user_constants={'pi': None},
+                                                    tolerance='0.01%')
+        lab = 'NumericalGrader user_constants={pi: None} credit %r' % credit
+        items.append(mk(lab, mkg, 'e+e', 'control', credit=credit))
+        items.append(mk(lab, mkg, 'e+e+0*i', 'control', credit=credit))
+        for cheat in contexts('2*e', 'pi')[:6]:
+            items.append(mk(lab, mkg, cheat, 'cheat', UNDEF_ERR, tag='removed-constant'))
+    return items
+
+
+def build_siblings_wider(tier):
+    items = []
+    for credit in (1, 0.5):
+        # forward reference: the FIRST answer is written in terms of the second input
+        for sub, subname in ((lambda: FormulaGrader(variables=['x']), 'FormulaGrader'), (lambda: MatrixGrader(variables=['x']), 'MatrixGrader')):
+            mkg = lambda credit=credit, sub=sub: ListGrader(answers=[{'expect': 'sibling_2^2', 'grade_decimal': credit}, 'x'],
+                                                            subgraders=sub(), ordered=True)
+            lab = 'ordered ListGrader (%s), FIRST answer = sibling_2^2, credit %r' % (subname, credit)
+            items.append(mk(lab, mkg, ['x^2', 'x'], 'control', credit=credit))
+            for cheat in ('sibling_2^2', 'x^2+0*sibling_2', 'x^2+sibling_2-sibling_2', 'x^2*sibling_2^0', 'x^2+0*sibling_1', 'x*sibling_2',
+                          'x^2+0*cos(sibling_2)', 'x^2+0*sibling_3'):
+                items.append(mk(lab, mkg, [cheat, 'x'], 'cheat', UNDEF_ERR, tag='sibling:forward'))
+            # PENDING-FINDING: an undefined name (sibling_1, q) in the SECOND box, which the first answer references, surfaces
+            # as ConfigError ("DependentSamplers depend on undefined quantities") instead of an undefined-variable error.
+            # for cheat in ('x+0*sibling_1', 'x+0*q', 'x+0*sibling_2'):
+            #     items.append(mk(lab, mkg, ['x^2', cheat], 'cheat', UNDEF_ERR, tag='sibling:forward:referenced-box'))
+            # a chain of three
+            mkg = lambda credit=credit, sub=sub: ListGrader(
+                answers=['x', 'sibling_1^2', {'expect': 'sibling_2*sibling_1', 'grade_decimal': credit}], subgraders=sub(), ordered=True)
+            lab = 'ordered ListGrader (%s), answers x, sibling_1^2, sibling_2*sibling_1, credit %r' % (subname, credit)
+            items.append(mk(lab, mkg, ['x', 'x^2', 'x^3'], 'control', credit=credit))
+            items.append(mk(lab, mkg, ['x', 'x*x', 'x^2*x'], 'control', credit=credit))
+            for cheat in ('sibling_2*sibling_1', 'x^3+0*sibling_1', 'x^3+0*sibling_2', 'x^3+0*sibling_3', 'x^2*sibling_1', 'sibling_2*x',
+                          'x^3*sibling_1^0*sibling_2^0', 'x^3+0*sibling_4', 'x^3+0*Sibling_1'):
+                items.append(mk(lab, mkg, ['x', 'x^2', cheat], 'cheat', UNDEF_ERR, tag='sibling:chain'))
+            for cheat in ('x^2+0*sibling_1', 'sibling_1^2', 'x^2+0*sibling_2', 'x^2+0*sibling_3'):
+                items.append(mk(lab, mkg, ['x', cheat, 'x^3'], 'cheat', UNDEF_ERR, tag='sibling:chain'))
+        # sibling AND an ordinary instructor variable in the same subgrader
+        mkg = lambda credit=credit: ListGrader(answers=['x', {'expect': 'sibling_1^2+z-z', 'grade_decimal': credit}],
+                                               subgraders=FormulaGrader(variables=['x', 'z'], instructor_vars=['z']), ordered=True)
+        lab = 'ordered ListGrader, second answer = sibling_1^2+z-z, z instructor-only, credit %r' % credit
+        items.append(mk(lab, mkg, ['x', 'x^2'], 'control', credit=credit))
+        for cheat in ('x^2+0*z', 'x^2+z-z', 'sibling_1^2+z-z', 'x^2+0*sibling_1', 'x^2+0*sibling_1*z', 'x^2*z^0'):
+            items.append(mk(lab, mkg, ['x', cheat], 'cheat', UNDEF_ERR, tag='sibling+instructor-var'))
+        for cheat in ('x+0*z', 'x+z-z'):
+            items.append(mk(lab, mkg, [cheat, 'x^2'], 'cheat', UNDEF_ERR, tag='sibling+instructor-var'))
+        # one grader per box: a number, then a formula in terms of it
+        mkg = lambda credit=credit: ListGrader(answers=['3', {'expect': 'sibling_1^2*x', 'grade_decimal': credit}],
+                                               subgraders=[NumericalGrader(), FormulaGrader(variables=['x'])], ordered=True)
+        lab = 'ordered ListGrader [NumericalGrader, FormulaGrader], second answer = sibling_1^2*x, credit %r' % credit
+        items.append(mk(lab, mkg, ['3', '9*x'], 'control', credit=credit))
+        for cheat in ('sibling_1^2*x', '9*x+0*sibling_1', '9*x*sibling_1^0', '3*x*sibling_1'):
+            items.append(mk(lab, mkg, ['3', cheat], 'cheat', UNDEF_ERR, tag='sibling:per-box-graders'))
+        for cheat in ('3+0*sibling_2', '3+0*sibling_1', '3+0*x'):
+            items.append(mk(lab, mkg, [cheat, '9*x'], 'cheat', UNDEF_ERR, tag='sibling:per-box-graders'))
+        # groups: sibling_j is the j-th member of the group
+        mkg = lambda credit=credit: ListGrader(
+            answers=[['x', 'sibling_1^2'], ['2*x', {'expect': 'sibling_1^3', 'grade_decimal': credit}]],
+            subgraders=ListGrader(subgraders=FormulaGrader(variables=['x']), ordered=True), grouping=[1, 1, 2, 2], ordered=True)
+        lab = 'grouped ordered ListGrader, answers [x, sibling_1^2], [2*x, sibling_1^3], credit %r' % credit
+        items.append(mk(lab, mkg, ['x', 'x^2', '2*x', '8*x^3'], 'control', credit=credit))
+        for cheat in ('sibling_1^3', '8*x^3+0*sibling_1', '8*x^3+0*sibling_2', '8*x^3+0*sibling_3', '8*x^3+0*sibling_4'):
+            items.append(mk(lab, mkg, ['x', 'x^2', '2*x', cheat], 'cheat', UNDEF_ERR, tag='sibling:grouped'))
+        for cheat in ('sibling_1^2', 'x^2+0*sibling_1', 'x^2+0*sibling_3'):
+            items.append(mk(lab, mkg, ['x', cheat, '2*x', '8*x^3'], 'cheat', UNDEF_ERR, tag='sibling:grouped'))
+    return items
+
+
+def build_sum_wider(tier):
+    items = []
+    base = dict(lower='1', upper='4', summand='2*cos(n)+n', summation_variable='n')
+
+    def fields(**over):
+        d = dict(base)
+        d.update(over)
+        return [d['lower'], d['upper'], d['summand'], d['summation_variable']]
+    S = '2*cos(n)+n'
+    # instructor-only names whose first sampled value is falsy / constants removed / no function at all / numbered variables
+    cfgs = [
+        ('instructor_vars=[z], z sampled from {0}', dict(base, summand=S + '+z'),
+         dict(variables=['z'], instructor_vars=['z'], sample_from={'z': DiscreteSet((0,))}), 'z', UNDEF_ERR, 'instructor-var', ()),
+        ('instructor_vars=[z], z sampled from {0.0, 2} (first draw 0.0)', dict(base, summand=S + '+z-z'),
+         dict(variables=['z'], instructor_vars=['z'], sample_from={'z': DiscreteSet((0.0, 2))}), 'z', UNDEF_ERR, 'instructor-var', ()),
+        ('instructor_vars=[z], z a user constant equal to 0', dict(base, summand=S + '+z'),
+         dict(user_constants={'z': 0}, instructor_vars=['z']), 'z', UNDEF_ERR, 'instructor-var', ()),
+        ('instructor_vars=[z], z a user constant 3, samples=1', dict(base, summand=S + '+z-3'),
+         dict(user_constants={'z': 3}, instructor_vars=['z'], samples=1), 'z', UNDEF_ERR, 'instructor-var', ()),
+        ('instructor_vars=[pi, infty]', dict(base), dict(instructor_vars=['pi', 'infty']), 'pi', UNDEF_ERR, 'instructor-var', ('0*e',)),
+        ('user_constants={pi: None}', dict(base), dict(user_constants={'pi': None}), 'pi', UNDEF_ERR, 'removed-constant', ('0*e',)),
+        ('numbered_vars=[a]', dict(base, summand=S + '+a_{1}-a_{1}'), dict(numbered_vars=['a']), "a_{2}'", UNDEF_ERR, 'numbered-var',
+         ('0*a_{2}',)),
+        ('numbered_vars=[a] (bare head)', dict(base, summand=S + '+a_{1}-a_{1}'), dict(numbered_vars=['a']), 'a', UNDEF_ERR, 'numbered-var',
+         ()),
+        ('plain (suffix k without metric_suffixes)', dict(base), dict(), '2k', UNDEF_ERR, 'not-a-suffix', ('0*3%',)),
+        ('metric_suffixes=True (unknown suffix q)', dict(base), dict(metric_suffixes=True), '2q', UNDEF_ERR, 'not-a-suffix', ('0*2k',)),
+        ('blacklist=[sin,tan]', dict(base), dict(blacklist=['sin', 'tan']), 'tan(0)', FUNC_ERR, 'blacklist', ('0*sinh(1)',)),
+        ('whitelist=[cos] + user function h', dict(base), dict(whitelist=['cos'], user_functions={'h': _sq}), 'abs(1)', FUNC_ERR, 'whitelist',
+         ('0*h(n)',)),
+    ]
+    for label, ans, kw, R, allowed, tag, extra_ok in cfgs:
+        mkg = lambda kw=kw, ans=ans: SumGrader(answers=dict(ans), **kw)
+        lab = 'SumGrader ' + label
+        items.append(mk(lab, mkg, fields(), 'control', credit=1))
+        items.append(mk(lab, mkg, fields(summand='m+cos(m)*2', summation_variable='m'), 'control', credit=1))
+        for ok in extra_ok:
+            items.append(mk(lab, mkg, fields(summand=S + '+' + ok), 'control', credit=1))
+        for cheat in contexts(S, R)[:(3 if tier == 'quick' else 9)]:
+            items.append(mk(lab, mkg, fields(summand=cheat), 'cheat', allowed, tag=tag + ':summand'))
+        for cheat in ('1+0*%s' % R, '1+%s-%s' % (R, R)):
+            items.append(mk(lab, mkg, fields(lower=cheat), 'cheat', allowed, tag=tag + ':lower'))
+        for cheat in ('4+0*%s' % R, '4-%s+%s' % (R, R)):
+            items.append(mk(lab, mkg, fields(upper=cheat), 'cheat', allowed, tag=tag + ':upper'))
+    # whitelist=[None]: no function at all (the author's summand has none either)
+    mkg = lambda: SumGrader(answers=dict(base, summand='n^2+n'), whitelist=[None])
+    lab = 'SumGrader whitelist=[None]'
+    items.append(mk(lab, mkg, fields(summand='n+n^2'), 'control', credit=1))
+    for R in ('cos(0)', 'abs(n)'):
+        for cheat in contexts('n^2+n', R)[:4]:
+            items.append(mk(lab, mkg, fields(summand=cheat), 'cheat', FUNC_ERR, tag='whitelist-none:summand'))
+    items.append(mk(lab, mkg, fields(summand='n^2+n', lower='1+0*abs(1)'), 'cheat', FUNC_ERR, tag='whitelist-none:lower'))
+    items.append(mk(lab, mkg, fields(summand='n^2+n', upper='4*cos(0)'), 'cheat', FUNC_ERR, tag='whitelist-none:upper'))
+    # the student enters only some of the fields
+    layouts = [('summand only', {'summand': 1}, lambda s, v='n': s if v == 'n' else None),
+               ('summand, variable', {'summand': 1, 'summation_variable': 2}, lambda s, v='n': [s, v]),
+               ('variable, summand', {'summation_variable': 1, 'summand': 2}, lambda s, v='n': [v, s]),
+               ('upper, summand', {'upper': 1, 'summand': 2}, lambda s, v='n': ['4', s] if v == 'n' else None)]
+    if tier == 'quick':
+        layouts = [layouts[0], layouts[2]]
+    for lname, pos, shape in layouts:
+        for label, kw, R, allowed, tag in (('blacklist=[sin]', dict(blacklist=['sin']), 'sin(0)', FUNC_ERR, 'blacklist'),
+                                           ('whitelist=[cos]', dict(whitelist=['cos']), 'sqrt(4)', FUNC_ERR, 'whitelist'),
+                                           ('instructor_vars=[z]', dict(variables=['z'], instructor_vars=['z']), 'z', UNDEF_ERR, 'instructor-var'),
+                                           ('forbidden_strings=[n+n]', dict(forbidden_strings=['n+n']), None, FUNC_ERR, 'forbidden'),
+                                           ('required_functions=[cos]', dict(required_functions=['cos']), None, FUNC_ERR, 'required')):
+            mkg = lambda kw=kw, pos=pos: SumGrader(answers=dict(base), input_positions=dict(pos), **kw)
+            lab = 'SumGrader %s; student enters %s' % (label, lname)
+            items.append(mk(lab, mkg, shape(S), 'control', credit=1))
+            if shape(S, 'm') is not None:
+                items.append(mk(lab, mkg, shape('m+cos(m)*2', 'm'), 'control', credit=1))
+            if R is not None:
+                cheats = contexts(S, R)[:4]
+            elif tag == 'forbidden':
+                cheats = ['2*cos(n)+n+n-n', '2*cos(n+n-n)+n', '2*cos(n)+n +n-n']
+            else:
+                cheats = ['2*sin(n+pi/2)+n', '2*re(exp(i*n))+n']
+            for cheat in cheats:
+                items.append(mk(lab, mkg, shape(cheat), 'cheat', allowed, tag=tag + ':partial-layout'))
+    return items
+
+
+def build_list_wrappers(tier):
+    """the restricted grader sits inside a list grader: a cheat in one entry must still be refused (not merely lose that entry)"""
+    from mitxgraders import SingleListGrader
+    items = []
+    a1, a2 = 'cos(x)+x', '2*cos(x)'
+    restr = [
+        ('blacklist=[sin]', dict(blacklist=['sin']), 'cos(x)+x+0*sin(x)', '2*cos(x)+sin(x)-sin(x)', FUNC_ERR, 'blacklist'),
+        ('whitelist=[cos]', dict(whitelist=['cos']), 'cos(x)+x*sqrt(4)/2', '2*cos(x)+0*abs(x)', FUNC_ERR, 'whitelist'),
+        ('forbidden_strings=[x+x]', dict(forbidden_strings=['x+x']), 'cos(x)+x+x-x', '2*cos(x+x-x)', FUNC_ERR, 'forbidden'),
+        ('required_functions=[cos]', dict(required_functions=['cos']), 'sin(x+pi/2)+x', '2*sin(x+pi/2)', FUNC_ERR, 'required'),
+        ('instructor_vars=[z]', dict(instructor_vars=['z']), 'cos(x)+x+0*z', '2*cos(x)+z-z', UNDEF_ERR, 'instructor-var'),
+        ('plain (unknown q)', dict(), 'cos(x)+x+0*q', '2*cos(x)*q^0', UNDEF_ERR, 'undefined-name'),
+    ]
+    wrong = 'x^3'
+    if tier == 'quick':
+        restr = [r for r in restr if r[5] in ('blacklist', 'forbidden', 'required', 'instructor-var')]
+    for label, kw, c1, c2, allowed, tag in restr:
+        sub = lambda kw=kw: FormulaGrader(variables=['x', 'z'] if 'instructor_vars' in kw else ['x'], **kw)
+        wrappers = [
+            ('SingleListGrader unordered', lambda sub=sub: SingleListGrader(answers=[a1, a2], subgrader=sub()), ', '.join, False),
+            ('SingleListGrader ordered', lambda sub=sub: SingleListGrader(answers=[a1, a2], subgrader=sub(), ordered=True), ', '.join, True),
+            ('SingleListGrader delimiter ;', lambda sub=sub: SingleListGrader(answers=[a1, a2], subgrader=sub(), delimiter=';'), ';'.join, False),
+            ('ListGrader unordered', lambda sub=sub: ListGrader(answers=[a1, a2], subgraders=sub()), list, False),
+            ('ListGrader ordered', lambda sub=sub: ListGrader(answers=[a1, a2], subgraders=sub(), ordered=True), list, True),
+            ('ListGrader of two SingleListGraders',
+             lambda sub=sub: ListGrader(answers=[[a1, a2], [a2, a1]], subgraders=SingleListGrader(subgrader=sub()), ordered=True),
+             None, False),
+        ]
+        if tier == 'quick':
+            wrappers = [w for w in wrappers if 'delimiter' not in w[0]]
+        for wname, mkg, shape, ordered in wrappers:
+            lab = '%s around FormulaGrader %s' % (wname, label)
+            if shape is None:
+                items.append(mk(lab, mkg, [a1 + ', ' + a2, a1 + ',' + a2], 'control', credit=1))
+                for pair in ([c1 + ',' + a2, a1 + ',' + a2], [a1 + ',' + a2, a1 + ',' + c2], [a2 + ',' + c1, wrong + ',' + wrong],
+                             [wrong + ',' + wrong, wrong + ',' + c2]):
+                    items.append(mk(lab, mkg, pair, 'cheat', allowed, tag=tag + ':nested-list'))
+                continue
+            items.append(mk(lab, mkg, shape([a1, a2]), 'control', credit=1))
+            pairs = [(c1, a2), (a1, c2), (c1, c2), (c1, wrong), (wrong, c2)]
+            if not ordered:
+                pairs += [(a2, c1), (c2, a1), (c2, wrong), (wrong, c1)]
+            for pair in pairs:
+                items.append(mk(lab, mkg, shape(list(pair)), 'cheat', allowed, tag=tag + ':list-entry'))
+    return items
+
+
+def build_construction_order(tier):
+    """graders built (and used) EARLIER in the same process: what they allow must not become available to a later grader, what they
+    remove or restrict must not be missing from a later grader; and the same text graded first by a more permissive grader"""
+    items = []
+    base = dict(lower='1', upper='4', summand='2*cos(n)+n', summation_variable='n')
+    A = '2*cos(x)+x'
+    later = [
+        ('FormulaGrader', lambda: FormulaGrader(answers=A, variables=['x']), lambda t: A + t.replace('@', 'x')),
+        ('MatrixGrader', lambda: MatrixGrader(answers=A, variables=['x']), lambda t: A + t.replace('@', 'x')),
+        ('NumericalGrader', lambda: NumericalGrader(answers='2*cos(1)+3', tolerance='0.01%'), lambda t: '2*cos(1)+3' + t.replace('@', '1')),
+        ('SumGrader', lambda: SumGrader(answers=dict(base)), lambda t: ['1', '4', '2*cos(n)+n' + t.replace('@', 'n'), 'n']),
+    ]
+    widening = [
+        ('FormulaGrader(allow_inf=True)', lambda: FormulaGrader(answers='x', variables=['x'], allow_inf=True), 'x+0/infty', '+0/infty',
+         ('FormulaGrader', 'MatrixGrader', 'NumericalGrader')),
+        ('NumericalGrader(allow_inf=True)', lambda: NumericalGrader(answers='3', allow_inf=True), '3+0/infty', '+0/infty',
+         ('FormulaGrader', 'MatrixGrader', 'NumericalGrader')),
+        ('FormulaGrader(user_constants={q: 2})', lambda: FormulaGrader(answers='x', variables=['x'], user_constants={'q': 2}), 'x+0*q',
+         '+0*q', None),
+        ('NumericalGrader(user_constants={q: 2})', lambda: NumericalGrader(answers='4', user_constants={'q': 2}), '2*q', '+0*q', None),
+        ('FormulaGrader(user_functions={h: ...})', lambda: FormulaGrader(answers='x', variables=['x'], user_functions={'h': _sq}),
+         'x+0*h(x)', '+0*h(@)', None),
+        ('SumGrader(user_functions={h: ...})', lambda: SumGrader(answers=dict(base), user_functions={'h': _sq}),
+         ['1', '4', '2*cos(n)+n+0*h(n)', 'n'], '+0*h(@)', None),
+        ('FormulaGrader(metric_suffixes=True)', lambda: FormulaGrader(answers='x', variables=['x'], metric_suffixes=True), 'x+0*2k',
+         '+0*2k', None),
+        ('SumGrader(metric_suffixes=True)', lambda: SumGrader(answers=dict(base), metric_suffixes=True),
+         ['1', '4', '2*cos(n)+n+0*2k', 'n'], '+0*2k', None),
+        ('MatrixGrader(identity_dim=2)', lambda: MatrixGrader(answers='x*I', variables=['x'], identity_dim=2, max_array_dim=2),
+         '[[x,0],[0,x]]', '+0*det(I)', None),
+        ('MatrixGrader() (matrix-only functions)', lambda: MatrixGrader(answers='x', variables=['x']), 'x+0*trans(2)', '+0*trans(2)',
+         ('FormulaGrader', 'NumericalGrader', 'SumGrader')),
+        ('FormulaGrader(variables=[x, y])', lambda: FormulaGrader(answers='x', variables=['x', 'y']), 'x+0*y', '+0*y', None),
+        ('FormulaGrader(numbered_vars=[a])', lambda: FormulaGrader(answers='x', variables=['x'], numbered_vars=['a']), 'x+0*a_{1}',
+         '+0*a_{1}', None),
+        ('SumGrader() (constant infty)', lambda: SumGrader(answers=dict(base)), ['1', '4', '2*cos(n)+n', 'n'], '+0/infty',
+         ('FormulaGrader', 'MatrixGrader', 'NumericalGrader')),
+    ]
+    for ename, emk, einp, term, only in widening:
+        for lname, lmk, shape in later:
+            if only is not None and lname not in only:
+                continue
+            lab = '%s built and used first, then a plain %s' % (ename, lname)
+            items.append(mk(lab, lmk, shape(term), 'cheat', UNDEF_ERR, tag='leaked-from-earlier-grader', before_with=((emk, einp),)))
+            items.append(mk(lab, lmk, shape(''), 'control', credit=1, before_with=((emk, None),)))
+    narrowing = [
+        ('NumericalGrader(user_constants={pi: None, e: None})', lambda: NumericalGrader(answers='3', user_constants={'pi': None, 'e': None}),
+         '3', '+0*pi*e'),
+        ('FormulaGrader(instructor_vars=[pi, i])', lambda: FormulaGrader(answers='x+0*pi', variables=['x'], instructor_vars=['pi', 'i']), 'x',
+         '+0*pi*i'),
+        ('FormulaGrader(blacklist=[cos, abs])', lambda: FormulaGrader(answers='x', variables=['x'], blacklist=['cos', 'abs']), 'x',
+         '+0*abs(@)'),
+        ('FormulaGrader(whitelist=[None])', lambda: FormulaGrader(answers='x', variables=['x'], whitelist=[None]), 'x', '+0*abs(@)'),
+        ('SumGrader(whitelist=[sin])', lambda: SumGrader(answers=dict(base, summand='n'), whitelist=['sin']), ['1', '4', 'n', 'n'], '+0*abs(@)'),
+        ('FormulaGrader(forbidden_strings=[cos], required_functions=[tan])',
+         lambda: FormulaGrader(answers='tan(x)', variables=['x'], forbidden_strings=['cos'], required_functions=['tan']), 'tan(x)', '+0*abs(@)'),
+    ]
+    for ename, emk, einp, term in narrowing:
+        for lname, lmk, shape in later:
+            lab = '%s built and used first, then a plain %s' % (ename, lname)
+            items.append(mk(lab, lmk, shape(term), 'control', credit=1, before_with=((emk, einp),)))
+    # the same text: first graded by a grader that allows it, then by the grader that restricts it (and the other way round)
+    same_text = [
+        ('blacklist=[sin]', lambda **kw: FormulaGrader(answers=A, variables=['x'], **kw), dict(blacklist=['sin']), dict(),
+         [A + '+0*sin(x)', A + '+sin(x)-sin(x)'], A, FUNC_ERR, 'blacklist'),
+        ('whitelist=[cos]', lambda **kw: MatrixGrader(answers=A, variables=['x'], **kw), dict(whitelist=['cos']), dict(),
+         [A + '+0*sqrt(4)', A + '*exp(0)'], A, FUNC_ERR, 'whitelist'),
+        ('forbidden_strings=[2*x]', lambda **kw: FormulaGrader(answers='2*sin(x)*cos(x)', variables=['x'], **kw),
+         dict(forbidden_strings=['2*x']), dict(), ['sin(2*x)', 'sin(2 * x)'], '2*sin(x)*cos(x)', FUNC_ERR, 'forbidden'),
+        ('required_functions=[cos]', lambda **kw: FormulaGrader(answers='cos(2*x)', variables=['x'], **kw),
+         dict(required_functions=['cos']), dict(), ['1-2*sin(x)^2', 'sin(2*x+pi/2)'], 'cos(2*x)', FUNC_ERR, 'required'),
+        ('instructor_vars=[z]', lambda **kw: FormulaGrader(answers=A + '+z-z', variables=['x', 'z'], **kw), dict(instructor_vars=['z']),
+         dict(), [A + '+0*z', A + '+z-z', A + '*z^0'], A, UNDEF_ERR, 'instructor-var'),
+        ('instructor_vars=[c] (constant)', lambda **kw: NumericalGrader(answers='2*c', user_constants={'c': 3e8}, tolerance='0.01%', **kw),
+         dict(instructor_vars=['c']), dict(), ['2*c', '6e8+0*c'], '6e8', UNDEF_ERR, 'instructor-var'),
+        ('SumGrader blacklist=[sin]', lambda **kw: SumGrader(answers=dict(base), **kw), dict(blacklist=['sin']), dict(),
+         [['1', '4', '2*cos(n)+n+0*sin(n)', 'n'], ['1+0*sin(0)', '4', '2*cos(n)+n', 'n']], ['1', '4', '2*cos(n)+n', 'n'], FUNC_ERR,
+         'blacklist'),
+        ('SumGrader instructor_vars=[z]', lambda **kw: SumGrader(answers=dict(base), variables=['z'], **kw), dict(instructor_vars=['z']),
+         dict(), [['1', '4', '2*cos(n)+n+0*z', 'n'], ['1', '4+0*z', '2*cos(n)+n', 'n']], ['1', '4', '2*cos(n)+n', 'n'], UNDEF_ERR,
+         'instructor-var'),
+    ]
+    for label, make, strict_kw, loose_kw, cheats, clean, allowed, tag in same_text:
+        strict = lambda make=make, kw=strict_kw: make(**kw)
+        loose = lambda make=make, kw=loose_kw: make(**kw)
+        for cheat in cheats:
+            lab = '%s: the same text was first graded (and credited) by the grader without the restriction' % label
+            items.append(mk(lab, strict, cheat, 'cheat', allowed, tag=tag + ':same-text-permissive-first', before_with=((loose, cheat),)))
+            items.append(mk(lab, strict, clean, 'control', credit=1, before_with=((loose, cheat),)))
+            lab = '%s: the same text was first refused by the restricted grader, then goes to the grader without the restriction' % label
+            items.append(mk(lab, loose, cheat, 'control', credit=1, before_with=((strict, cheat),)))
+    return items
+
+
 # ------------------------------------------------------------------------------ every short formula
 
 TF_TOKENS = ['x', 'z', '0', '2', '+', '*', '-', 'sin(', 'cos(', ')', '^']
@@ -615,4 +1186,32 @@ def families(tier):
         TokenFormulas(),
         Restriction('sum_grader', 'SumGrader with all four fields entered by the student; restricted construct in summand, lower or upper',
                     build_sum),
+        Restriction('comparer_partial_credit',
+                    'the verdict is partial because of the COMPARER (author comparers returning "partial" / a quarter, LinearComparer '
+                    'multiples, MatrixGrader entry_partial_credit with one wrong entry) x blacklist / whitelist / forbidden / required x '
+                    'neutralising contexts, answer credit {1, .5}, on Formula, Matrix, Numerical', build_comparer_partial),
+        Restriction('look_alike_names_and_author_text',
+                    'functions whose names contain the required / blacklisted / whitelisted name (cosh, arccos, sinh, arcsin), required '
+                    'user functions, whitelist=[None] next to a user function, forbidden strings equal to the whole input / ending it / '
+                    'listed last, and author answers that themselves contain the forbidden string or lack the required function',
+                    build_lookalikes),
+        Restriction('names_wider',
+                    'single removed default constants, non-suffixes under metric_suffixes=True, function names used as variables and '
+                    'constants / variables called as functions, non-integer numbered-variable indices and two numbered heads, primed '
+                    'instructor variable, debug=True / samples=1 / failable_evals, identity I as instructor constant', build_names_wider),
+        Restriction('siblings_wider',
+                    'ordered lists: forward reference (first answer in terms of sibling_2), chain of three, Matrix subgrader, sibling + '
+                    'instructor variable, one grader per box, grouped nested lists', build_siblings_wider),
+        Restriction('sum_grader_wider',
+                    'SumGrader: instructor names with falsy first value, removed constant, numbered variables, suffixes, whitelist=[None], '
+                    'user function + whitelist; layouts where the student enters only some fields', build_sum_wider),
+        Restriction('list_wrappers',
+                    'a restricted FormulaGrader inside SingleListGrader / ListGrader (ordered, unordered, other delimiter, nested): a cheat in '
+                    'one entry, next to a right or a wrong other entry, in either position', build_list_wrappers),
+        Restriction('construction_order',
+                    'a grader that allows more (allow_inf, user constants / functions, metric suffixes, identity, matrix functions, extra '
+                    'variables, numbered variables, infty) or less (removed constants, instructor_vars, blacklist, whitelist, forbidden, '
+                    'required) is built and used first in the same process, then a plain Formula / Matrix / Numerical / Sum grader; and '
+                    'the same text graded first by the grader without the restriction (and the other way round)',
+                    build_construction_order),
     ]
